@@ -114,6 +114,7 @@ def _check_case(repo, case: S.SimCase, rank, fast: bool = False):
                               f"order {f[1]} is filled with current price {cp!r}, not at its own price {own!r} for {desc}"))
         # ordering of events: partial candle published before the execution it belongs to
         last_partial = None
+        pts = [segs[0][0]] + [b for _, b in segs]          # the path's corner points: open, low/high, high/low, close
         for ev in out.events:
             if ev[0] == "partial":
                 last_partial = ev[1]
@@ -121,6 +122,16 @@ def _check_case(repo, case: S.SimCase, rank, fast: bool = False):
                 if last_partial is None or _val(last_partial[2], s) != _val(ev[3], s):
                     viols.append(("C08-R3", f"match-loop|partial|{desc}",
                                   f"partial candle published before fill of {ev[1]} does not close at the fill price for {desc}"))
+                elif ev[1] in pos:
+                    # the candle so far: from the minute's own open, with the extremes of the path travelled up to this fill
+                    seg_i = pos[ev[1]][0]
+                    travelled = pts[:seg_i + 1] + [_val(ev[3], s)]
+                    want_o, want_h, want_l = s["o"], max(travelled), min(travelled)
+                    got_o, got_h, got_l = _val(last_partial[1], s), _val(last_partial[3], s), _val(last_partial[4], s)
+                    if (got_o, got_h, got_l) != (want_o, want_h, want_l):
+                        viols.append(("C07-R11", f"match-loop|partial-so-far|{desc}",
+                                      f"partial candle published at the fill of {ev[1]} is (open {got_o}, high {got_h}, low {got_l}), the minute so far is (open {want_o}, "
+                                      f"high {want_h}, low {want_l}) for {desc}: it starts at the previous fill instead of the minute's open"))
                 last_partial = None
         if fast:
             if trace_sample is None:
